@@ -105,14 +105,25 @@ def pair_rows(uname, timeout=1800):
     path = os.path.join(d, "pairs_%s.%s.json" % (uname, _hash(uname, ["Plane.tla", "ShapeSys.tla", "ShapeSysExport.tla"])))
     if not os.path.exists(path):
         tlc.prepare()
-        root = "MCX_" + uname
-        _sys_module(root, "ShapeSysExport", uname, regs=3, maxobj=5, ops=("or", "and", "sub", "xor"), gens=(), maxframe=0, acts=())
-        cfg = SYS_CONSTS + "SPECIFICATION SSpec\nCHECK_DEADLOCK FALSE\n"
-        tmp = path + ".tmp"
-        res = tlc.run(root, None, cfg_text=cfg, workers=1, timeout=timeout, env={"VERIF_UNIVERSE": uname, "VERIF_OUT": tmp}, tag=root)
-        if not res.ok or not os.path.exists(tmp):
-            raise tlc.MachineryError("ShapeSysExport failed for %s:\n%s" % (uname, res.error_text()))
-        os.replace(tmp, path)
+        from concurrent.futures import ThreadPoolExecutor
+
+        def one(op):
+            root = "MCX_%s_%s" % (uname, op)
+            _sys_module(root, "ShapeSysExport", uname, regs=3, maxobj=5, ops=("or", "and", "sub", "xor"), gens=(), maxframe=0, acts=())
+            cfg = SYS_CONSTS + "SPECIFICATION SSpec\nCHECK_DEADLOCK FALSE\n"
+            tmp = "%s.%s.tmp" % (path, op)
+            res = tlc.run(root, None, cfg_text=cfg, workers=1, timeout=timeout, env={"VERIF_UNIVERSE": uname, "VERIF_OUT": tmp, "VERIF_OP": op}, tag=root)
+            if not res.ok or not os.path.exists(tmp):
+                raise tlc.MachineryError("ShapeSysExport failed for %s/%s:\n%s" % (uname, op, res.error_text()))
+            d = json.load(open(tmp))
+            os.remove(tmp)
+            return d["rows"][0]
+
+        with ThreadPoolExecutor(4) as ex:
+            parts = list(ex.map(one, ("or", "and", "sub", "xor")))
+        with open(path + ".tmp", "w") as fh:
+            json.dump({"name": uname, "rows": parts}, fh)
+        os.replace(path + ".tmp", path)
     data = json.load(open(path))
     rows = []
     for per_op in data["rows"]:
